@@ -162,7 +162,8 @@ def gen_c11(r, tier, info):
 def gen_c12(r, tier, info):
     sels = sels_for(info)
     std = info.get("std") == "1"
-    return [gen.adapters(r, sels, force=True, std=std) for _ in range(150 if tier == "quick" else 3000)]
+    n = 150 if tier == "quick" else 3000
+    return [gen.adapters(r, sels, force=True, std=std) for _ in range(n)] + [gen.builders(r) for _ in range(n // 3)]
 
 
 # ---- C13 ---------------------------------------------------------------------------------------
@@ -183,7 +184,8 @@ def gen_c14(r, tier, info):
 # ---- C15 ---------------------------------------------------------------------------------------
 def gen_c15(r, tier, info):
     sels = sels_for(info)
-    return [gen.interleave(r, sels, nh=r.randrange(2, 7), force=True) for _ in range(100 if tier == "quick" else 2500)]
+    n = 100 if tier == "quick" else 2500
+    return [gen.interleave(r, sels, nh=r.randrange(2, 7), force=True) for _ in range(n)] + [gen.builders(r) for _ in range(n // 2)]
 
 
 # ---- C10 ---------------------------------------------------------------------------------------
